@@ -912,7 +912,7 @@ package tchannel
 // stays inside the declared payload size.
 //@ func parseInboundFragment(framePool FramePool, frame *Frame, message message) (fragment *readableFragment, err error)
 //@   requires FrameFull(frame) && frame.Header.size >= 16 && message != nil
-//@   modifies allbut Connection, Channel, Frame, messageExchangeSet, messageExchange, errAttempts, cs, bytes, own
+//@   modifies allbut Connection, Channel, Frame, messageExchangeSet, messageExchange, errAttempts, cs, bytes, own, nwaits
 //@   defines decodefails(frame) <==> err != nil
 //@   label unknown-checksum-type-rejected
 //@   ensures err == nil ==> RF(fragment) && !fragment.isDone
